@@ -33,6 +33,9 @@ def unreached_branches(nodes) -> list:
     cov = COVERAGE or set()
     for fn in nodes:
         for st in ast.walk(fn):
+            if isinstance(st, (ast.For, ast.While)) and (id(st), "body") not in cov and not all(isinstance(x, (ast.Raise, ast.Pass)) for x in st.body):
+                out.append((st, "body"))  # a loop whose body no sample ever entered
+                continue
             if not isinstance(st, ast.If):
                 continue
 
@@ -76,6 +79,8 @@ class coverage_scope:
         if not m:
             return None
         st_, flag_ = m[0]
+        if flag_ == "body":
+            return f"the samples never enter the body of the loop at line {st_.lineno} (`{ast.unparse(st_).splitlines()[0][:60]}`): agreement on them does not cover that path"
         return f"the samples never take the {'true' if flag_ else 'false'} arm of `if {ast.unparse(st_.test)[:60]}` (line {st_.lineno}): agreement on them does not cover that path"
 
 
@@ -618,6 +623,8 @@ def run_fragment(body: Sequence[ast.stmt], names: Dict[str, Any], attrs: Optiona
                     if not isinstance(seq, (list, str)):
                         raise Unfoldable("loop is not over a range, a list or a string")
                 for i in seq:
+                    if COVERAGE is not None:
+                        COVERAGE.add((id(st), "body"))
                     bind(st.target, i)
                     try:
                         run(st.body)
@@ -632,6 +639,8 @@ def run_fragment(body: Sequence[ast.stmt], names: Dict[str, Any], attrs: Optiona
                         raise Unfoldable("step budget exhausted")
                     if not truth(fold(st.test)):
                         break
+                    if COVERAGE is not None:
+                        COVERAGE.add((id(st), "body"))
                     try:
                         run(st.body)
                     except _Break:
